@@ -9,6 +9,8 @@
 (* from gate g to gate g'" is exactly one action of this module:           *)
 (*                                                                         *)
 (*   S: start -sendQuery-> flushq -flush-> colinfo|input -> encblock       *)
+(*        (any flush may end in wblocked: the write blocks on a peer that   *)
+(*        stopped reading, until the connection is closed)                  *)
 (*        -encodeBlock-> flushr -flush-> cb -OnInput-> encblock|term       *)
 (*        -blank block-> finalflush -flush-> ret -> exit                   *)
 (*   R: loop -ctx check, packet(), handle-> loop|info|read|ret -close(done)-> done -> exit *)
@@ -29,7 +31,8 @@ EXTENDS Integers, Sequences, FiniteSets, TLC
 CONSTANTS Configs,      \* set of scenario records (see MC_QL.tla); trace validation binds cfg from the trace
           Fixed,        \* TRUE: the repaired behaviour (registered); FALSE: the pinned code's behaviour
           AllowForeignClose, \* enable Close() from a foreign goroutine as an environment action
-          AllowCancel        \* enable cancellation / deadline expiry of the caller's context
+          AllowCancel,       \* enable cancellation / deadline expiry of the caller's context
+          AllowStall         \* enable the peer ceasing to read (writes block) as an environment action
 
 VARIABLES
   cfg,        \* scenario: [scn, needInfo, ext, script, plan, present, rfail, rcancel, initRows, wbreak]
@@ -47,16 +50,17 @@ VARIABLES
   cbR, seenRows, cblog,           \* receiver: callbacks invoked, default handler saw a non-empty block, callback log
   call, phase,                    \* number of the current call; "inDo" | "returned" | "next"
   wbroken,                        \* the connection stopped accepting writes (cfg.wbreak complete tokens were accepted)
+  stalled,                        \* the peer stopped reading: a write blocks until the connection is closed (or its deadline passes)
   cancelAt, cancelClean, lateFault,   \* ghosts for C10
   hist                            \* schedule so far (roles / environment moves), for behaviour generation
 
 vars == <<cfg, spc, rpc, wpc, rerr, once, pend, c2s, s2c, sidx, caller, gctx, firstErr, closed, connClosed,
-          gotExc, done, info, ver, rows, tail, round, cbS, cbR, seenRows, cblog, call, phase, wbroken,
+          gotExc, done, info, ver, rows, tail, round, cbS, cbR, seenRows, cblog, call, phase, wbroken, stalled,
           cancelAt, cancelClean, lateFault, hist>>
 
 \* everything but the schedule history (VIEW for model checking; subscript of the fairness conditions)
 View == <<cfg, spc, rpc, wpc, rerr, once, pend, c2s, s2c, sidx, caller, gctx, firstErr, closed, connClosed,
-          gotExc, done, info, ver, rows, tail, round, cbS, cbR, seenRows, cblog, call, phase, wbroken,
+          gotExc, done, info, ver, rows, tail, round, cbS, cbR, seenRows, cblog, call, phase, wbroken, stalled,
           cancelAt, cancelClean, lateFault>>
 
 Roles == {"S", "R", "W"}
@@ -74,7 +78,7 @@ InitWith(c) ==
   /\ info = [buf |-> 0, cl |-> FALSE]
   /\ ver = 1 /\ rows = c.initRows /\ tail = FALSE /\ round = 0 /\ cbS = 0
   /\ cbR = 0 /\ seenRows = FALSE /\ cblog = <<>>
-  /\ call = 1 /\ phase = "inDo" /\ wbroken = FALSE
+  /\ call = 1 /\ phase = "inDo" /\ wbroken = FALSE /\ stalled = FALSE
   /\ cancelAt = "none" /\ cancelClean = FALSE /\ lateFault = FALSE
   /\ hist = <<>>
 Init == \E c \in Configs : InitWith(c)
@@ -95,7 +99,7 @@ G_Once(x) ==
   /\ once' = [once EXCEPT ![x] = TRUE]
   /\ firstErr' = IF firstErr = "none" THEN rerr[x] ELSE firstErr
   /\ UNCHANGED <<cfg, spc, rpc, wpc, rerr, pend, c2s, s2c, sidx, caller, gctx, closed, connClosed, gotExc, done,
-                 info, ver, rows, tail, round, cbS, cbR, seenRows, cblog, call, phase, wbroken,
+                 info, ver, rows, tail, round, cbS, cbR, seenRows, cblog, call, phase, wbroken, stalled,
                  cancelAt, cancelClean, lateFault, hist>>
 
 (* c = the caller's context is being cancelled in this very step (from inside a callback) *)
@@ -127,11 +131,13 @@ Flush(from, to) ==
      \/ /\ ~CtxDead /\ pend = <<>> /\ spc' = to
         /\ (IF to = "ret" THEN Ret("S", "nil") ELSE UNCHANGED <<rerr, lateFault>>)
         /\ UNCHANGED <<pend, c2s, wbroken, closed, connClosed>>
-     \/ /\ ~CtxDead /\ pend # <<>> /\ ~connClosed /\ ~wbroken /\ ~Breaks(Len(pend))
+     \/ /\ ~CtxDead /\ pend # <<>> /\ ~connClosed /\ ~wbroken /\ stalled      \* the peer does not read: the write blocks
+        /\ spc' = "wblocked" /\ UNCHANGED <<rerr, lateFault, pend, c2s, wbroken, closed, connClosed>>
+     \/ /\ ~CtxDead /\ pend # <<>> /\ ~connClosed /\ ~wbroken /\ ~stalled /\ ~Breaks(Len(pend))
         /\ c2s' = c2s \o pend /\ pend' = <<>> /\ spc' = to
         /\ (IF to = "ret" THEN Ret("S", "nil") ELSE UNCHANGED <<rerr, lateFault>>)
         /\ UNCHANGED <<wbroken, closed, connClosed>>
-     \/ /\ ~CtxDead /\ pend # <<>> /\ (connClosed \/ wbroken \/ Breaks(Len(pend)))
+     \/ /\ ~CtxDead /\ pend # <<>> /\ (connClosed \/ wbroken \/ (~stalled /\ Breaks(Len(pend))))
         /\ IF connClosed \/ wbroken THEN UNCHANGED <<c2s, wbroken>>
            ELSE /\ \E part \in BOOLEAN :
                      c2s' = c2s \o SubSeq(pend, 1, cfg.wbreak - Len(c2s)) \o (IF part THEN <<Tok("partial", 0)>> ELSE <<>>)
@@ -139,6 +145,13 @@ Flush(from, to) ==
         /\ pend' = <<>> /\ spc' = "ret" /\ Ret("S", "err")
         /\ IF Fixed THEN closed' = TRUE /\ connClosed' = TRUE ELSE UNCHANGED <<closed, connClosed>>
   /\ UNCHANGED <<once, caller, gctx, firstErr, info, ver, rows, tail, round, cbS>> /\ SU
+
+(* a blocked write ends when the connection is closed under it (cancelQuery, a foreign Close): it fails *)
+S_WriteWake ==
+  /\ spc = "wblocked" /\ connClosed
+  /\ pend' = <<>> /\ spc' = "ret" /\ Ret("S", "err")
+  /\ IF Fixed THEN closed' = TRUE /\ connClosed' = TRUE ELSE UNCHANGED <<closed, connClosed>>
+  /\ UNCHANGED <<once, c2s, caller, gctx, firstErr, info, ver, rows, tail, round, cbS, wbroken>> /\ SU
 
 AfterQ == IF cfg.scn # "select" /\ cfg.needInfo THEN "colinfo" ELSE "input"
 S_FlushQ == Flush("flushq", AfterQ)
@@ -218,7 +231,7 @@ S_Exit ==
   /\ UNCHANGED <<rerr, lateFault, pend, c2s, caller, closed, connClosed, info, ver, rows, tail, round, cbS, wbroken>> /\ SU
 
 SenderNext == S_SendQuery \/ S_FlushQ \/ S_ColInfo \/ S_Input \/ S_EncBlock \/ S_FlushR \/ S_Callback
-              \/ S_Term \/ S_FinalFlush \/ S_Exit
+              \/ S_Term \/ S_FinalFlush \/ S_WriteWake \/ S_Exit
 
 -----------------------------------------------------------------------------
 (* Receiver                                                                *)
@@ -324,13 +337,13 @@ ReceiverNext == R_Begin \/ R_Resume \/ R_Timeout \/ R_Info \/ R_Done \/ R_Exit
 W_Act ==
   /\ wpc = "wait" /\ done /\ wpc' = "ret"
   /\ IF (CtxDead \/ (Fixed /\ rerr["R"] # "nil")) /\ ~gotExc    \* F-19: the pinned code looked at the context only
-       THEN /\ IF connClosed \/ wbroken THEN UNCHANGED <<c2s, wbroken>>
+       THEN /\ IF connClosed \/ wbroken \/ stalled THEN UNCHANGED <<c2s, wbroken>>    \* (stalled: the 1 s write deadline passes)
                ELSE IF Breaks(1) THEN wbroken' = TRUE /\ UNCHANGED c2s
                ELSE c2s' = Append(c2s, Tok("cancel", 0)) /\ UNCHANGED wbroken
             \* what the watcher returns: the context's error joined with cancelQuery's (write and Close errors)
             /\ closed' = TRUE /\ connClosed' = TRUE
             /\ Ret("W", IF CtxDead THEN "ctx" ELSE IF closed THEN "closed"
-                         ELSE IF connClosed \/ wbroken \/ Breaks(1) THEN "err" ELSE "nil")
+                         ELSE IF connClosed \/ wbroken \/ stalled \/ Breaks(1) THEN "err" ELSE "nil")
        ELSE /\ Ret("W", "nil") /\ UNCHANGED <<c2s, closed, connClosed, wbroken>>
   /\ UNCHANGED <<cfg, spc, rpc, once, pend, s2c, sidx, caller, gctx, firstErr, gotExc, done, info, ver, rows, tail,
                  round, cbS, cbR, seenRows, cblog, call, phase, cancelAt, cancelClean>>
@@ -365,6 +378,10 @@ ServerSend ==
   /\ s2c' = Append(s2c, sidx) /\ sidx' = sidx + 1
   /\ UNCHANGED <<caller, gctx, closed, connClosed, cancelAt, cancelClean>> /\ EnvU
 
+Stall ==
+  /\ AllowStall /\ phase = "inDo" /\ ~stalled /\ stalled' = TRUE
+  /\ UNCHANGED <<s2c, sidx, caller, gctx, closed, connClosed, cancelAt, cancelClean>> /\ EnvU
+
 ForeignClose ==
   /\ AllowForeignClose /\ phase = "inDo" /\ ~closed
   /\ closed' = TRUE /\ connClosed' = TRUE
@@ -391,25 +408,27 @@ NextReq ==
 -----------------------------------------------------------------------------
 Log(x) == hist' = Append(hist, x)
 Next ==
-  \/ SenderNext /\ Log("S")
-  \/ (R_Begin \/ R_Resume \/ R_Info \/ R_Done \/ R_Exit) /\ Log("R")
-  \/ R_Timeout /\ Log("T")
-  \/ WatchNext /\ Log("W")
-  \/ ServerSend /\ Log("V")
-  \/ CallerCancel("cancelled") /\ Log("C")
-  \/ CallerCancel("deadline") /\ Log("D")
-  \/ ForeignClose /\ Log("X")
+  \/ SenderNext /\ Log("S") /\ UNCHANGED stalled
+  \/ (R_Begin \/ R_Resume \/ R_Info \/ R_Done \/ R_Exit) /\ Log("R") /\ UNCHANGED stalled
+  \/ R_Timeout /\ Log("T") /\ UNCHANGED stalled
+  \/ WatchNext /\ Log("W") /\ UNCHANGED stalled
+  \/ ServerSend /\ Log("V") /\ UNCHANGED stalled
+  \/ CallerCancel("cancelled") /\ Log("C") /\ UNCHANGED stalled
+  \/ CallerCancel("deadline") /\ Log("D") /\ UNCHANGED stalled
+  \/ ForeignClose /\ Log("X") /\ UNCHANGED stalled
+  \/ Stall /\ Log("Z")
   \/ \E x \in Roles : G_Once(x)
-  \/ DoReturn /\ Log("Ret")
-  \/ NextReq /\ Log("Next")
+  \/ DoReturn /\ Log("Ret") /\ UNCHANGED stalled
+  \/ NextReq /\ Log("Next") /\ UNCHANGED stalled
 
 Spec == Init /\ [][Next]_vars
-Fair == /\ WF_View(SenderNext) /\ WF_View(R_Begin \/ R_Resume \/ R_Info \/ R_Done \/ R_Exit) /\ WF_View(R_Timeout)
-        /\ WF_View(WatchNext) /\ WF_View(DoReturn) /\ WF_View(NextReq) /\ \A x \in Roles : WF_View(G_Once(x))
+K(A) == A /\ UNCHANGED stalled
+Fair == /\ WF_View(K(SenderNext)) /\ WF_View(K(R_Begin \/ R_Resume \/ R_Info \/ R_Done \/ R_Exit)) /\ WF_View(K(R_Timeout))
+        /\ WF_View(K(WatchNext)) /\ WF_View(K(DoReturn)) /\ WF_View(K(NextReq)) /\ \A x \in Roles : WF_View(G_Once(x))
 (* A silent server and a live caller never end Do; what "finite read        *)
 (* timeout" and "cancellation" buy is expressed by fairness of R_Timeout    *)
 (* and of the caller's cancel.                                              *)
-FairSpec == Spec /\ Fair /\ WF_View(CallerCancel("cancelled"))
+FairSpec == Spec /\ Fair /\ WF_View(K(CallerCancel("cancelled")))
 
 -----------------------------------------------------------------------------
 (* Properties                                                              *)
